@@ -29,6 +29,7 @@ func init() {
 			{ID: "R01.4", Title: "captured-name agreement between parseLiteral (emitted identifier names) and AddArgs (recorded outer names)", Floor: 1, Run: ruleR014},
 			{ID: "R02.7", Title: "optimizer: subtree promotion only under the generated code's own condition (see C02)", Floor: 2, Run: ruleR027},
 			{ID: "R02.8", Title: "optimizer: first-match folding of switch nodes (see C02)", Floor: 0, Run: ruleR028},
+			{ID: "R10.4", Title: "the producer of a lazy list uses the stack of its consumer only: no value stack is captured from the call that built the list", Floor: 20, Run: ruleR104},
 		},
 	})
 	register(&Property{
@@ -55,6 +56,7 @@ func init() {
 			{ID: "R02.8", Title: "first-match folding: a folding loop over the cases of a switch takes a case only on established equality and moves on only past cases decided negative", Floor: 0, Run: ruleR028},
 			{ID: "R02.9", Title: "success of Parse/Generate does not depend on whether a node was folded: no failure of its own under a test for a *Const node", Floor: 5, Run: ruleR029},
 			{ID: "R02.10", Title: "declared purity is never upgraded: a store into IsPure/IsCommutative of an existing descriptor is a constant, the setter's parameter or a conjunction with the old value", Floor: 1, Run: ruleR0210},
+			{ID: "R02.11", Title: "sibling agreement on arity: the optimizer applies a constant closure only for an argument count the generated call accepts (evaluated over all orderings of Args and the count)", Floor: 1, Run: ruleR0211},
 		},
 	})
 	register(&Property{
@@ -98,6 +100,7 @@ func init() {
 			{ID: "R04.12", Title: "Generate-time execution of program-defined code (constant closures, methods on constants) is bounded by a budget", Floor: 3, Run: ruleR0412},
 			{ID: "R04.13", Title: "no unchecked (single-value) type assertion on a value of the language in Generate-time code", Floor: 1, Run: ruleR0413},
 			{ID: "R04.15", Title: "the recursive descent hands the error of a nested parse call up unchanged (no wrapper per nesting level)", Floor: 8, Run: ruleR0415},
+			{ID: "R15.11", Title: "the width of a decoded rune is not dropped (see C15)", Floor: 5, Run: ruleR1511},
 			{ID: "R05.8", Title: "folding a self application terminates with a recoverable panic: the value stack bound is reached before the Go stack is exhausted (see C05)", Floor: 1, Run: ruleR058},
 			{ID: "R10.3", Title: "a field that one function increments and decrements (a depth counter) is back at its old value on every exit of that function (see C10)", Floor: 0, Run: ruleR103(nil)},
 			{ID: "R03.3", Title: "operator levels are entered in range of the operator table (see C03)", Floor: 3, Run: ruleR033},
@@ -121,6 +124,7 @@ func init() {
 			{ID: "R05.9", Title: "try/catch evaluates the try expression under a recover", Floor: 2, Run: ruleR059},
 			{ID: "R10.1d", Title: "closure values built by built-ins during an evaluation keep no mutable state (no store into captured variables)", Floor: 1, Run: ruleR101closureValues},
 			{ID: "R05.10", Title: "a recovered panic is reported on every path (error result set, callback called or panic raised again)", Floor: 8, Run: ruleR0510},
+			{ID: "R05.11", Title: "a deferred recover helper stores into a named result of the very function that defers it", Floor: 40, Run: ruleR0511},
 		},
 	})
 	register(&Property{
@@ -141,6 +145,7 @@ func init() {
 			{ID: "R09.1", Title: "list backing slices are never written in place (see C09)", Floor: 36, Run: ruleR091},
 			{ID: "R09.2", Title: "maps are never updated in place (see C09)", Floor: 40, Run: ruleR092},
 			{ID: "R09.3", Title: "language values other than List never append in place to a slice shared with their receiver (see C09)", Floor: 1, Run: ruleR093},
+			{ID: "R10.4", Title: "the producer of a lazy list uses the stack of its consumer only: no value stack is captured from the call that built the list", Floor: 20, Run: ruleR104},
 		},
 	})
 	register(&Property{
@@ -163,6 +168,7 @@ func init() {
 			{ID: "R09.1", Title: "list backing slices are never written in place (see C09)", Floor: 36, Run: ruleR091},
 			{ID: "R09.2", Title: "maps are never updated in place (see C09)", Floor: 40, Run: ruleR092},
 			{ID: "R07.9", Title: "materialising a lazy list: success implies the items are present, and nothing is cached while an error of the producer is pending", Floor: 2, Run: ruleR079},
+			{ID: "R13.3", Title: "flattening a chain of map wrappers copies the abstract view of the whole chain, not the storage below it (see C13)", Floor: 3, Run: ruleR133},
 		},
 	})
 	register(&Property{
@@ -178,6 +184,7 @@ func init() {
 			{ID: "R08.5", Title: "the error of a read-ahead element is not reported: an element independent exit that drops the pulled element precedes every forwarding of its error", Floor: 2, Run: ruleR085},
 			{ID: "R08.6", Title: "generated code of language constructs does not consume lists (no Eval/ToSlice/Size/deep evaluation inside generated closures)", Floor: 1, Run: ruleR086},
 			{ID: "R10.1b", Title: "stage producers modify only state created inside the producer (per iteration)", Floor: 23, Run: ruleR101stages},
+			{ID: "R08.7", Title: "stages use the measuring combinators (MapAuto, FilterAuto), never the ones that start their workers at once", Floor: 2, Run: ruleR087},
 		},
 	})
 	register(&Property{
@@ -211,6 +218,7 @@ func init() {
 			{ID: "R09.3", Title: "language values other than List never append to a slice field of their receiver or of a shallow copy of it without capping or cloning it", Floor: 1, Run: ruleR093},
 			{ID: "R01.2", Title: "closure context allocated per closure creation, slots in compile order (see C01)", Floor: 16, Run: ruleR012},
 			{ID: "R07.9", Title: "materialising a lazy list: success implies the items are present, and nothing is cached while an error of the producer is pending", Floor: 2, Run: ruleR079},
+			{ID: "R10.4", Title: "the producer of a lazy list uses the stack of its consumer only: no value stack is captured from the call that built the list", Floor: 20, Run: ruleR104},
 		},
 	})
 	register(&Property{
@@ -234,6 +242,7 @@ func init() {
 			{ID: "R06.1", Title: "value stacks are goroutine confined at MapAuto/FilterAuto/Merge", Floor: 3, Run: ruleR061},
 			{ID: "R06.3", Title: "iterator pipelines with callbacks are constructed per iteration", Floor: 15, Run: ruleR063},
 			{ID: "R07.9", Title: "materialising a lazy list: success implies the items are present, and nothing is cached while an error of the producer is pending", Floor: 2, Run: ruleR079},
+			{ID: "R10.4", Title: "the producer of a lazy list uses the stack of its consumer only: no value stack is captured from the call that built the list", Floor: 20, Run: ruleR104},
 		},
 	})
 	register(&Property{
@@ -298,6 +307,7 @@ func init() {
 			{ID: "R15.8", Title: "the image of a number or identifier consists of exactly the runes the matcher accepted (aliases in their ASCII form)", Floor: 1, Run: ruleR158},
 			{ID: "R15.9", Title: "string literals are decoded once: the string converter handed to the parser wraps the decoded text as it is", Floor: 1, Run: ruleR159},
 			{ID: "R15.10", Title: "the tokenizer scans the source exactly as it was handed to Parse (nothing is trimmed or rewritten before the lines are counted)", Floor: 2, Run: ruleR1510},
+			{ID: "R15.11", Title: "the width of a decoded rune is not dropped: the variable it is stored into is read before it is overwritten", Floor: 5, Run: ruleR1511},
 			{ID: "R03.6", Title: "implicit multiplication bookkeeping only in comfort mode (see C03)", Floor: 3, Run: ruleR036},
 		},
 	})
